@@ -6,6 +6,7 @@ package c11
 import (
 	"encoding/json"
 	"fmt"
+	"net/http"
 	"net/url"
 	"strconv"
 	"strings"
@@ -98,6 +99,8 @@ func think(c Case) {
 
 // ---------------- http ----------------
 
+const ammoHost = "ammo.example.net"
+
 func entryBody(i int) []byte {
 	return []byte(fmt.Sprintf("body-of-entry-%d-%s", i, strings.Repeat("x", i%5)))
 }
@@ -105,7 +108,19 @@ func entryBody(i int) []byte {
 func buildHTTP(c Case, b *built, viol *violations) (gun, ammo map[string]any, err error) {
 	p := c.Plain
 	f := ag.File{Format: p.Format}
+	if p.Array {
+		f.Layout.JSON = "array"
+	}
 	hasBody := p.Format != "uri"
+	wantHost := "" // "" = the file names no host
+	if p.Format == "raw" || p.Format == "jsonline" {
+		wantHost = ammoHost
+	}
+	if p.HostHeader {
+		wantHost = ammoHost
+		f.Items = append(f.Items, ag.Item{Dir: &ag.KV{K: "Host", V: ammoHost}})
+	}
+	stamp := p.dateHeaderName()
 	for i := 0; i < p.Entries; i++ {
 		e := ag.Entry{Method: "GET", URI: fmt.Sprintf("/e%d?entry=%d", i, i), Tag: fmt.Sprintf("t%d", i)}
 		if hasBody {
@@ -116,7 +131,7 @@ func buildHTTP(c Case, b *built, viol *violations) (gun, ammo map[string]any, er
 		case "uri", "uripost":
 			f.Items = append(f.Items, ag.Item{Dir: &ag.KV{K: "X-Entry", V: strconv.Itoa(i)}})
 		default:
-			e.Host = "ammo.example.net"
+			e.Host = ammoHost
 			e.Headers = []ag.KV{{K: "X-Entry", V: strconv.Itoa(i)}}
 		}
 		ee := e
@@ -150,6 +165,19 @@ func buildHTTP(c Case, b *built, viol *violations) (gun, ammo map[string]any, er
 		}
 		if hasBody && string(r.Body) != string(entryBody(i)) {
 			viol.add("target: request for entry %d arrived with body %q, the ammo says %q", i, r.Body, entryBody(i))
+		}
+		if wantHost != "" && r.Host != wantHost {
+			viol.add("target: request for entry %d arrived with Host %q, the ammo file says %q", i, r.Host, wantHost)
+		}
+		if stamp != "" {
+			// the middleware stamps the request an instance acquired, once; what other deliveries of the same ammo
+			// (other instances, earlier passes) were stamped with must not arrive here
+			vals := r.Header[stamp]
+			if len(vals) != 1 {
+				viol.add("target: request for entry %d arrived with %d values of header %s %q, the header/date middleware sets it once per acquired request: the request shares state with other deliveries of this ammo", i, len(vals), stamp, vals)
+			} else if _, terr := time.Parse(http.TimeFormat, vals[0]); terr != nil {
+				viol.add("target: request for entry %d arrived with %s=%q, which is not a date in HTTP format", i, stamp, vals[0])
+			}
 		}
 		mu.Lock()
 		perEntry[i]++
@@ -188,6 +216,13 @@ func buildHTTP(c Case, b *built, viol *violations) (gun, ammo map[string]any, er
 	gun = map[string]any{"type": "http", "target": tg.Addr(), "dial": map[string]any{"timeout": "20s"}}
 	ammo = map[string]any{"type": ag.ProviderType(p.Format), "file": name, "limit": c.Shots, "preload": p.Preload,
 		"headers": []any{"[X-Common: cfg]"}}
+	switch p.DateHeader {
+	case "":
+	case "default":
+		ammo["middlewares"] = []any{map[string]any{"type": "header/date"}}
+	default:
+		ammo["middlewares"] = []any{map[string]any{"type": "header/date", "headerName": p.DateHeader, "location": "UTC"}}
+	}
 	return gun, ammo, nil
 }
 
